@@ -817,6 +817,42 @@ func (x *e2Ctx) pathOf(v ssa.Value, d int) string {
 				}
 			}
 		}
+		// a constant-size make([]T, n) (compiled to new [n]T + slice) that ends up in a field: named by that field,
+		// wherever the store sits relative to the reads into it (dst := make(...); r.F = dst; buf.ReadBytes(dst[:k]))
+		if t.Comment == "makeslice" && !x.callArgs {
+			var home func(v ssa.Value, dd int) string
+			home = func(v ssa.Value, dd int) string {
+				if dd > 3 || v.Referrers() == nil {
+					return ""
+				}
+				for _, ref := range *v.Referrers() {
+					switch u := ref.(type) {
+					case *ssa.Slice:
+						if _, constHigh := u.High.(*ssa.Const); u.X == v && u.Low == nil && (u.High == nil || (constHigh && dd == 0)) {
+							if h := home(u, dd+1); h != "" {
+								return h
+							}
+						}
+					case *ssa.ChangeType:
+						if h := home(u, dd+1); h != "" {
+							return h
+						}
+					case *ssa.Store:
+						if u.Val == v {
+							if _, isFA := u.Addr.(*ssa.FieldAddr); isFA {
+								if p := x.pathOf(u.Addr, d+1); p != "" && !strings.HasPrefix(p, "%") {
+									return p
+								}
+							}
+						}
+					}
+				}
+				return ""
+			}
+			if h := home(t, 0); h != "" {
+				return h
+			}
+		}
 		if isResultObject(t) {
 			return ""
 		}
@@ -901,6 +937,21 @@ func (x *e2Ctx) pathOf(v ssa.Value, d int) string {
 		if isBuiltinCall(cc, "len") {
 			return "len(" + x.pathOf(cc.Args[0], d+1) + ")"
 		}
+		if isBuiltinCall(cc, "min") || isBuiltinCall(cc, "max") {
+			// a clamp: rendered like the φ of the equivalent if-form (the choice between its operands; which one is
+			// taken when is judged by the dedicated clamp rules, e.g. C01-K3)
+			var ps []string
+			seen := map[string]bool{}
+			for _, a := range cc.Args {
+				p := x.pathOf(a, d+1)
+				if !seen[p] {
+					seen[p] = true
+					ps = append(ps, p)
+				}
+			}
+			sort.Strings(ps)
+			return strings.Join(ps, "|")
+		}
 		if b, isB := cc.Value.(*ssa.Builtin); isB && x.callArgs {
 			var as []string
 			for _, a := range cc.Args {
@@ -927,6 +978,18 @@ func (x *e2Ctx) pathOf(v ssa.Value, d int) string {
 		}
 		if sf := cc.StaticCallee(); sf != nil && sf.Signature.Recv() != nil && len(cc.Args) > 0 {
 			return x.pathOf(cc.Args[0], d+1) + "." + sf.Name() + "(" + constArgs(cc.Args[1:]) + ")"
+		}
+		if sf := cc.StaticCallee(); sf != nil && x.callArgs && x.depth < 3 {
+			// delegation transparency (E6 rendering): a call of a pure delegation is rendered as the call it makes
+			if inner := delegationOf(sf); inner != nil {
+				sub := &e2Ctx{c: x.c, fn: sf, lex: map[ssa.Value]bool{}, enc: true, subst: map[string]string{}, visited: map[*ssa.BasicBlock]int{}, namedPhis: x.namedPhis, callArgs: x.callArgs, fullArgs: x.fullArgs, depth: x.depth + 1}
+				for i, p := range sf.Params {
+					if i < len(cc.Args) {
+						sub.subst[x.c.Sx().Of(p).String()] = x.apply(x.pathOf(cc.Args[i], d+1))
+					}
+				}
+				return sub.apply(sub.pathOf(inner, 0))
+			}
 		}
 		if sf := cc.StaticCallee(); sf != nil && len(cc.Args) > 0 {
 			if s, ok := x.expandPureHelper(t, d); ok {
@@ -1251,6 +1314,10 @@ func (x *e2Ctx) bytesSrc(v ssa.Value) (string, string, string) {
 		if cc.IsInvoke() && cc.Method.Name() == "ToBytes" {
 			return "enc(" + typeTag(cc.Value.Type()) + ")", x.apply(x.pathOf(cc.Value, 0)), ""
 		}
+	}
+	// a string used directly as a byte source (copy(dst, s), append(b, s...)): the same bytes as []byte(s)
+	if bt, ok := v.Type().Underlying().(*types.Basic); ok && bt.Info()&types.IsString != 0 {
+		return "var", x.apply(x.pathOf(v, 0)), "str"
 	}
 	// plain byte-slice valued field / variable
 	return "var", x.apply(x.pathOf(v, 0)), ""
